@@ -179,12 +179,12 @@ func ruleC04Nondet(p *Prog, a *Anchors, r *Report) {
 						continue
 					}
 					sens, why := mapRangeOrderSensitive(p, a, in)
-					key := fname + "|range " + typeName(in.X.Type())
+					key := "range " + mapRangeSignature(p, in)
 					switch {
 					case !sens:
 						r.OK(key, p.InstrPos(in), "range over map with order-insensitive body (%s)", why)
-					case mapRangeAssumed[fname] != "":
-						r.Assume(key, p.InstrPos(in), "%s; reviewed: %s", why, mapRangeAssumed[fname])
+					case mapRangeAssumed[topLevel(f).Name()] != "":
+						r.Assume(key, p.InstrPos(in), "%s; reviewed: %s", why, mapRangeAssumed[topLevel(f).Name()])
 					default:
 						r.Bad(key, p.InstrPos(in), "range over a map in Go's random order with an order-sensitive body: %s", why)
 					}
@@ -192,6 +192,66 @@ func ruleC04Nondet(p *Prog, a *Anchors, r *Report) {
 			}
 		}
 	}
+}
+
+// mapRangeSignature describes a range-over-map loop by WHAT is ranged and what its body consults, not by the
+// function it happens to live in (so that moving the loop into a helper keeps its identity).
+func mapRangeSignature(p *Prog, rg *ssa.Range) string {
+	what := typeName(rg.X.Type())
+	if _, n, fld := fieldLoadBase(rg.X); n != nil {
+		what = n.Obj().Name() + "." + fld
+	} else if g := globalLoaded(rg.X); g != nil {
+		what = "global " + g.Name()
+	}
+	// body signature: first looked-up field / first static callee of the package inside the loop
+	var header *ssa.BasicBlock
+	for _, u := range refs(rg) {
+		if nx, ok := u.(*ssa.Next); ok {
+			header = nx.Block()
+		}
+	}
+	sig := ""
+	if header != nil && len(header.Succs) == 2 {
+		seen := map[*ssa.BasicBlock]bool{header: true}
+		work := []*ssa.BasicBlock{header.Succs[0]}
+		var notes []string
+		for len(work) > 0 {
+			b := work[0]
+			work = work[1:]
+			if seen[b] {
+				continue
+			}
+			seen[b] = true
+			for _, in := range b.Instrs {
+				switch x := in.(type) {
+				case *ssa.Lookup:
+					if _, n, fld := fieldLoadBase(x.X); n != nil {
+						notes = append(notes, "lookup "+n.Obj().Name()+"."+fld)
+					}
+				case ssa.CallInstruction:
+					cc := x.Common()
+					if cc.IsInvoke() {
+						notes = append(notes, "invoke "+cc.Method.Name())
+					} else if cal := cc.StaticCallee(); cal != nil && cal.Pkg != nil && !p.InPkg(cal) && cal.Signature.Recv() != nil {
+						notes = append(notes, cal.Name())
+					}
+				}
+			}
+			for _, s := range b.Succs {
+				work = append(work, s)
+			}
+		}
+		sortStrings(notes)
+		for i, n := range notes {
+			if i == 0 || notes[i-1] != n {
+				sig += " " + n
+			}
+			if len(sig) > 60 {
+				break
+			}
+		}
+	}
+	return what + ":" + strings.TrimSpace(sig)
 }
 
 // mapRangeOrderSensitive inspects the body of a range-over-map loop.
